@@ -760,7 +760,7 @@ func (fx *FuncCtx) freshVal(base string, t types.Type) (Val, []Term) {
 	case *types.Slice:
 		n := fx.freshName(base)
 		sv := SliceV{Rid: fx.declConst(n+"$rid", SInt), Off: fx.declConst(n+"$off", SInt), Len: fx.declConst(n+"$len", SInt), Cap: fx.declConst(n+"$cap", SInt), Elem: u.Elem()}
-		facts = append(facts, Ge(sv.Rid, IntLit(0)), Ge(sv.Off, IntLit(0)), Ge(sv.Len, IntLit(0)), Le(sv.Len, sv.Cap), Lt(sv.Cap, Pow2(62)),
+		facts = append(facts, Ge(sv.Rid, IntLit(0)), Ge(sv.Off, IntLit(0)), Ge(sv.Len, IntLit(0)), Le(sv.Len, sv.Cap), Lt(sv.Cap, capBound(u.Elem())),
 			Implies(Eq(sv.Rid, IntLit(0)), Eq(sv.Cap, IntLit(0))))
 		return sv, facts
 	case *types.Struct:
@@ -914,4 +914,33 @@ func (fx *FuncCtx) implementsFacts() string {
 		}
 	}
 	return b.String()
+}
+
+// capBound: capacity limit implied by the maximal allocation size.
+func capBound(elem types.Type) Term {
+	size := int64(1)
+	if b, ok := elem.Underlying().(*types.Basic); ok {
+		switch b.Kind() {
+		case types.Int, types.Int64, types.Uint, types.Uint64, types.Uintptr, types.Float64, types.Complex64:
+			size = 8
+		case types.Int32, types.Uint32, types.Float32:
+			size = 4
+		case types.Int16, types.Uint16:
+			size = 2
+		case types.Complex128:
+			size = 16
+		}
+	}
+	// no allocation exceeds 2^56 bytes (the Go runtime's limit on 64-bit targets is 2^47-2^48)
+	switch {
+	case size >= 16:
+		return Pow2(52)
+	case size >= 8:
+		return Pow2(53)
+	case size >= 4:
+		return Pow2(54)
+	case size >= 2:
+		return Pow2(55)
+	}
+	return Pow2(56)
 }
